@@ -11,6 +11,7 @@ use std::io::{BufWriter, Write};
 
 mod c02;
 mod c03;
+mod c04;
 mod c05;
 mod c09;
 mod c15;
@@ -201,6 +202,8 @@ pub fn eval(out: &mut Out, req: &str) -> String {
     let args: Vec<&str> = it.collect();
     let r = if op.starts_with("leb.") {
         c09::eval(out, op, &args)
+    } else if op.starts_with("sound.") {
+        c04::eval(out, op, &args)
     } else if op == "wire.roundtrip" || op == "wire.annotate" {
         c03::eval(out, op, &args)
     } else if op.starts_with("wire.") {
@@ -264,6 +267,7 @@ fn main() {
         "replay" => {}
         "C02" => c02::run(&mut ctx),
         "C03" => c03::run(&mut ctx),
+        "C04" => c04::run(&mut ctx),
         "C05" => c05::run(&mut ctx),
         "C09" => c09::run(&mut ctx),
         "C15" => c15::run(&mut ctx),
